@@ -98,6 +98,65 @@ CHECKS = {
         ref="§3/C14",
         note="Trusted: a Pickled's state is (_opcodes, _ast, _properties); exceptions compared by type.",
     ),
+    "C02": dict(
+        level="fault_enumeration",
+        technique=E3F + ": inputs x arming paths x stream kinds x thresholds, plus a stream whose content flips after the k-th read/seek/tell call for every k",
+        text="15 inputs (one per reachable severity, benign structured values, 7 inputs on which parsing/analysis raises while naming a sink call) x "
+        "3 arming paths x 4 stream kinds x 6 thresholds, each executed on the real loader under a find_class audit monitor and a harmless sink; "
+        "then for each arming path every fault point k of an instrumented stream that swaps benign/malicious content of equal length after "
+        "its k-th call (both directions). Returned => verdict <= threshold, value and resolutions equal the stock load of the analysed bytes; "
+        "refused => UnsafeFileError with that verdict; every non-return => zero resolutions and empty sink.",
+        ref="§3/C02, §2/E3",
+        note="Trusted: severities of the fixed shapes (cross-checked by C10); flips during the first parse pass are recorded as observations only.",
+    ),
+    "C06": dict(
+        level="model_checking",
+        technique=E3 + " (reference = stopping point of pickletools.genops / the stock unpickler)",
+        text="~1.5k (quick) / ~9k pickles (every argument-carrying opcode at 1/2/4/8-byte length boundaries, corpus values and objects at "
+        "protocols 0-5 framed and unframed) x 5 trailers x 7 deliveries (bytes, bytearray, BytesIO at 0 and at an offset, real file, "
+        "non-seekable raw and buffered streams): dumps() must equal the first pickle, the stream must sit right after it and the trailer must "
+        "remain readable; all stacks of 1..3/4 pickles from a 7-element sub-corpus must partition the input.",
+        ref="§3/C06",
+        note="Trusted: pickletools.genops as the delimiter of the first pickle.",
+    ),
+    "C08": dict(
+        level="model_checking",
+        technique=E3 + ": base pickles x injection modes x loaders, rewritten bytes really loaded under a sink and a find_class audit monitor",
+        text="180 (quick) / ~330 base pickles (fixture objects, shared refs, 300 memo entries, protocols 0-5 framed/unframed, assembler programs using "
+        "the injector's own memo keys) x 15 injection modes x {C unpickler, pure-Python unpickler for unframed}: exactly one injected call with "
+        "exactly the arguments, original effects and resolutions preserved in order, return value kept/replaced as documented, VM stack empty at "
+        "STOP, single trailing STOP, own verdict not LIKELY_SAFE.",
+        ref="§3/C08",
+        note="Trusted: fixture sink; reference VM (stubs) for the stack shape; frames stripped for that observation only.",
+    ),
+    "C10": dict(
+        level="model_checking",
+        technique=E3 + ": all stacks of 1..3/4 pickles over 6 severity shapes x every face of the verdict; all 36 severity pairs x 6 operators",
+        text="258 (quick) / 883 files x {per-pickle library verdict, to_dict, is_likely_safe, checked loader at 6 thresholds, CLI --check-safety under "
+        "4 option sets (exit status and decoded JSON report)} compared through an independent rank table; Severity comparison operators "
+        "checked on all ordered pairs.",
+        ref="§3/C10",
+        note="Trusted: rank table in vp/vocab.py; POSSIBLY_UNSAFE is not produced by any analysis.",
+    ),
+    "C15": dict(
+        level="model_checking",
+        technique=E3 + ": boundary value list x construction helpers, delivered value compared by type and value; every opcode class encoded and read back with pickletools",
+        text="~320 values (ints at every width boundary and sign, floats incl. -0.0/inf/nan, bools, ASCII/Latin-1/BMP/astral/control/numeric-looking "
+        "text, bytes, nested lists and dicts) x 7 helpers + CLI --create; 62 opcode classes x representative arguments through encode() and "
+        "pickletools.genops.",
+        ref="§3/C15",
+        note="Trusted: stock unpickler + pickletools as the reader; exceptions at build or dumps() time count as refusal.",
+    ),
+    "C18": dict(
+        level="model_checking",
+        technique=E3 + ": stacks x targets x flags x input channel through the real CLI in-process",
+        text="All stacks of 1..3/4 pickles over a 5/7-pickle corpus x targets 0..n+1 x --run-last x --replace-result x {file, non-seekable stdin}: "
+        "output must split into n pickles, neighbours byte-identical, target equal to the library injection on that pickle alone, out-of-range "
+        "targets fail and emit nothing; plain decompilation must be one valid program binding result0..n-1 to the right values (run under "
+        "stubs against the reference VM) with no variable assigned twice.",
+        ref="§3/C18",
+        note="Trusted: genops-based stack splitter; stub world for values.",
+    ),
 }
 
 NOT_YET = {}
